@@ -25,6 +25,14 @@ CHECKS = {
    text="Programs loading constant multisets (structured families, frequency ladders, every spelling of one byte value, enums, templates, addresses, selectors, >255 distinct repeated constants, seeded random multisets) are compiled with assembleConstants off/on at versions 3..10. TLC (spec/Refine.tla) checks site by site that each constant-load instruction of the assembled text - block indices resolved through intcblock/bytecblock - pushes the value of the pseudo-op text, that the remaining instruction streams are identical, and runs both texts on spec/AVM.tla against the source meaning (constants are logged).",
    note="template placeholders get one deterministic stand-in value per name; selectors/addresses are decoded by the harness tokenizer",
    tech="TLA+ validation (TLC): static constant-site equivalence of assembled vs pseudo-op program + differential AVM execution"),
+ "C13": dict(cat="model_checking", ref="5 C13",
+   text="TLC enumerates literal texts as strings over character classes (spec/LitGen.tla); concretised literals (Bytes from str/bytes/base16/32/64 incl. ill-formed texts, Int, Addr, MethodSignature) are compiled and the emitted TEAL text is lexed character by character in TLA+ with the assembler's line grammar (spec/TealLex.tla); spec/Lex.tla requires exactly the expected five statements and that the literal decodes to the bytes/number the user wrote, and that ill-formed base16/32/64/address texts were rejected at construction.",
+   note="TealLex.tla is my transcription of the assembler grammar; hashes (selector, address checksum) come from the harness",
+   tech="TLA+ lexer specification (TLC) applied to emitted literal lines; class strings enumerated by TLC"),
+ "C18": dict(cat="model_checking", ref="5 C18",
+   text="Programs from spec/Gen.tla are compiled plain and with annotations at random positions (Comment around any node, Assert comments, Pragma, Nonce, subroutine names incl. identical names) with texts over the LitGen character classes incl. line breaks, quotes, '//' and ';' and texts > 256 characters; both TEAL texts are lexed in TLA+ (spec/TealLex.tla) and spec/Lex.tla requires equal statement streams up to a label bijection (no duplicate labels) and the documented Nonce push+pop.",
+   note="annotation texts PyTeal refuses with a PyTeal error are not violations; two recorded findings (comment keeps a block / hides a store-load pair)",
+   tech="TLA+ lexer specification (TLC): statement streams of annotated vs plain text compared modulo label renaming"),
  "C16": dict(cat="model_checking", ref="5 C16",
    text="All 35 factor-count combinations of WideRatio are replayed into PyTeal; TLC runs the emitted TEAL on spec/AVM.tla against the big-number meaning of WideRatio in spec/PyTealSem.tla: on a scaled 4-bit-word machine over every factor tuple (small counts) and on the 64-bit machine over boundary values. Exact result or failure, compared by TLC per (program, context).",
    note="trusts BigNat.tla (self-tested against Python integers at setup), the mulw/divmodw/cover/uncover semantics of AVM.tla, soundness of the scaled machine for width-generic code",
